@@ -297,8 +297,8 @@ class ConsHist(Engine):
     real_components = ("ExpressionManager (create_node, constructors, auto_promote)", "FNode operators", "TypeChecker")
     stub_components = ()
     assumptions = (
-        "constructs whose normal form the documentation leaves open are not generated (Int(True), Real of an integral "
-        "Fraction, floats that are not dyadic rationals)",
+        "constructs whose normal form the documentation leaves open are not generated (Int(True), floats that are not "
+        "dyadic rationals)",
     )
 
     def profiles(self, tier):
@@ -428,6 +428,12 @@ class ConsHist(Engine):
         pn = [p for p in plain if _kind(p, world) == "num"] or [["int", 1]]
         special = [["and"], ["or"], ["plus"], ["times"], ["and", "list"], ["plus", "gen"],
                    ["not", ["not", ro.choice(pb)]]]
+        # an explicit Real constant with an integral value is a REAL constant: structurally different
+        # from the Int constant of the same value, hence a different node (both orders occur)
+        for n_ in ro.sample(range(-2, 6), 3):
+            special.append(["real", str(n_)])
+            special.append(["int", n_])
+            special.append(["le", ["real", str(n_)], ro.choice(pn)])
         for k_ in ("and", "or"):
             special.append([k_, ro.choice(pb), ro.choice(["list", "unpack", "gen"])])
         for k_ in ("plus", "times"):
@@ -442,7 +448,7 @@ class ConsHist(Engine):
             r = ro.random()
             if r < rej:
                 ops.append({"op": "cons", "d": ro.choice(illtyped), "ill": True})
-            elif r < rej + 0.1:
+            elif r < rej + 0.14:
                 ops.append({"op": "cons", "d": ro.choice(special)})
             else:
                 e = ro.choice(plain)
